@@ -33,7 +33,71 @@ impl CommodityStore {
     { unimplemented!() }
 }
 
+impl CommodityStore {
+    // alias-table state of the underlying InternStore (group `intern`, C12): a name is unknown, canonical, or an alias
+    pub uninterp spec fn is_alias(&self, name: Seq<char>) -> bool;
+    pub uninterp spec fn is_canonical(&self, name: Seq<char>) -> bool;
+    pub uninterp spec fn registered(&self, h: Commodity) -> bool;
+    // InternStore::insert_canonical: Err(AlreadyAlias) iff the name is an alias (table unchanged), else the canonical handle
+    #[verifier::external_body]
+    pub fn insert_canonical(&mut self, value: &str) -> (r: Result<Commodity, u8>)
+        ensures
+            old(self).is_alias(value@) ==> r is Err && *final(self) == *old(self),
+            !old(self).is_alias(value@) ==> (r matches Ok(c) && final(self).resolved(value@) == Some(c) && final(self).is_canonical(value@) && final(self).registered(c)),
+            forall|n: Seq<char>| old(self).resolved(n) is Some ==> final(self).resolved(n) == old(self).resolved(n),
+            forall|n: Seq<char>| old(self).is_alias(n) ==> final(self).is_alias(n),
+            forall|n: Seq<char>| old(self).is_canonical(n) ==> final(self).is_canonical(n),
+            forall|h: Commodity| old(self).registered(h) ==> final(self).registered(h),
+    { unimplemented!() }
+    // InternStore::insert_alias: Err(AlreadyCanonical) iff the name is canonical (table unchanged); a new name becomes an alias of `canonical`
+    #[verifier::external_body]
+    pub fn insert_alias(&mut self, value: &str, canonical: Commodity) -> (r: Result<(), u8>)
+        requires old(self).registered(canonical),
+        ensures
+            old(self).is_canonical(value@) ==> r is Err && *final(self) == *old(self),
+            !old(self).is_canonical(value@) ==> r is Ok,
+            (!old(self).is_canonical(value@) && !old(self).is_alias(value@)) ==> final(self).resolved(value@) == Some(canonical) && final(self).is_alias(value@),
+            forall|n: Seq<char>| old(self).resolved(n) is Some ==> final(self).resolved(n) == old(self).resolved(n),
+            forall|n: Seq<char>| old(self).is_alias(n) ==> final(self).is_alias(n),
+            forall|n: Seq<char>| old(self).is_canonical(n) ==> final(self).is_canonical(n),
+            forall|h: Commodity| old(self).registered(h) ==> final(self).registered(h),
+    { unimplemented!() }
+    #[verifier::external_body]
+    pub fn set_format<T>(&mut self, commodity: Commodity, format: T)
+        ensures
+            forall|n: Seq<char>| final(self).resolved(n) == old(self).resolved(n),
+            forall|n: Seq<char>| final(self).is_alias(n) == old(self).is_alias(n),
+            forall|n: Seq<char>| final(self).is_canonical(n) == old(self).is_canonical(n),
+            forall|h: Commodity| final(self).registered(h) == old(self).registered(h),
+    { unimplemented!() }
+}
+
 impl AccountStore {
+    pub uninterp spec fn is_alias(&self, name: Seq<char>) -> bool;
+    pub uninterp spec fn is_canonical(&self, name: Seq<char>) -> bool;
+    pub uninterp spec fn registered(&self, h: Account) -> bool;
+    #[verifier::external_body]
+    pub fn insert_canonical(&mut self, value: &str) -> (r: Result<Account, u8>)
+        ensures
+            old(self).is_alias(value@) ==> r is Err && *final(self) == *old(self),
+            !old(self).is_alias(value@) ==> (r matches Ok(c) && final(self).resolved(value@) == Some(c) && final(self).is_canonical(value@) && final(self).registered(c)),
+            forall|n: Seq<char>| old(self).resolved(n) is Some ==> final(self).resolved(n) == old(self).resolved(n),
+            forall|n: Seq<char>| old(self).is_alias(n) ==> final(self).is_alias(n),
+            forall|n: Seq<char>| old(self).is_canonical(n) ==> final(self).is_canonical(n),
+            forall|h: Account| old(self).registered(h) ==> final(self).registered(h),
+    { unimplemented!() }
+    #[verifier::external_body]
+    pub fn insert_alias(&mut self, value: &str, canonical: Account) -> (r: Result<(), u8>)
+        requires old(self).registered(canonical),
+        ensures
+            old(self).is_canonical(value@) ==> r is Err && *final(self) == *old(self),
+            !old(self).is_canonical(value@) ==> r is Ok,
+            (!old(self).is_canonical(value@) && !old(self).is_alias(value@)) ==> final(self).resolved(value@) == Some(canonical) && final(self).is_alias(value@),
+            forall|n: Seq<char>| old(self).resolved(n) is Some ==> final(self).resolved(n) == old(self).resolved(n),
+            forall|n: Seq<char>| old(self).is_alias(n) ==> final(self).is_alias(n),
+            forall|n: Seq<char>| old(self).is_canonical(n) ==> final(self).is_canonical(n),
+            forall|h: Account| old(self).registered(h) ==> final(self).registered(h),
+    { unimplemented!() }
     pub uninterp spec fn resolved(&self, name: Seq<char>) -> Option<Account>;
     #[verifier::external_body]
     pub fn ensure(&mut self, value: &str) -> (r: Account)
